@@ -274,6 +274,11 @@ func (p *Projector) abstract(m pgw.Msg) M {
 	}
 	delete(r, "_raw")
 	delete(r, "trailing")
+	if p.Proj == nil || p.Proj.Recv["*"] == nil || !p.Proj.Recv["*"]["known"] {
+		for _, f := range []string{"known", "decl", "items", "parsed", "trail", "term", "mand"} {
+			delete(r, f)
+		}
+	}
 	return p.Proj.KeepRecv(r)
 }
 
